@@ -3,7 +3,7 @@
 use crate::algebra::Wire;
 use crate::derived::*;
 use crate::sem::*;
-use crate::sim::{execute, gen_plan, Exec, Hooks, Plan};
+use crate::sim::{execute, gen_plan, show_values, Exec, Hooks, Plan};
 use ark_serialize::{CompressedChecked, CompressedUnchecked, UncompressedChecked, UncompressedUnchecked};
 use num_bigint::BigUint;
 use simkit::driver::Stats;
@@ -20,6 +20,7 @@ pub struct Entry {
     pub hooks: Hooks,
     pub gen: fn(&str, &Hooks, &str, &str, &mut Rng) -> Plan,
     pub exec: fn(&Plan, &Hooks, &str, &mut Stats) -> Exec,
+    pub show: fn(&Plan) -> Vec<String>,
 }
 
 const C18: &[&str] = &["C18"];
@@ -34,6 +35,7 @@ fn e<T: Sem>(name: &'static str, props: &'static [&'static str], weight: u32, bu
         hooks: Hooks { model: None, foreign: None, zst_elems: false, budget },
         gen: gen_plan::<T>,
         exec: execute::<T>,
+        show: show_values::<T>,
     }
 }
 fn ez<T: Sem>(name: &'static str, props: &'static [&'static str], weight: u32) -> Entry {
@@ -49,6 +51,7 @@ fn w<T: Wire>(name: &'static str, props: &'static [&'static str], weight: u32, b
         hooks: Hooks { model: Some(T::model), foreign: Some(T::foreign), zst_elems: false, budget },
         gen: gen_plan::<T>,
         exec: execute::<T>,
+        show: show_values::<T>,
     }
 }
 
